@@ -35,6 +35,44 @@ def perms(rng, n, k):
     return out[:k]
 
 
+def decl_graphs(rng):
+    """chunk lists whose declarations depend on each other across classes in ways a single left-to-right pass gets wrong:
+    static initialisers reading other classes' statics (a random DAG, sometimes a cycle, through fields, static methods and
+    top-level functions), bounded generic classes used in member signatures of classes declared before the bound's hierarchy"""
+    out = []
+    k = rng.randint(3, 5)
+    names = ["S%d" % i for i in range(k)]
+    order = names[:]
+    rng.shuffle(order)                      # dependencies go from later to earlier in `order`: acyclic
+    chunks = []
+    for i, n in enumerate(order):
+        deps = [d for d in order[:i] if rng.random() < 0.6]
+        if rng.random() < 0.15 and i + 1 < len(order):
+            deps.append(order[-1])          # ... sometimes a cycle
+        terms = [str(rng.randint(1, 9))]
+        for d in deps:
+            terms.append(rng.choice(["%s.v" % d, "%s.get()" % d, "twice(%s.v)" % d]))
+        chunks.append("static class %s {\n  public static int v = %s;\n  public static int w = v * 2;\n  public static function get() -> int { return v + 100; }\n}\n"
+                      % (n, " + ".join(terms)))
+    chunks.append("function twice(int x) -> int { return x + x; }\n")
+    chunks.append("function main() -> void {\n%s}\n" % "".join("  echo(\"%s \" + %s.v + \" \" + %s.w);\n" % (n, n, n) for n in names))
+    out.append(chunks)
+    # bounded generics in member signatures
+    arg = rng.choice(["Dog0", "Pup0", "Animal0"])
+    chunks = ["class Animal0 {\n  public constructor() -> Animal0 { }\n  public virtual function say() -> string { return \"...\"; }\n}\n",
+              "class Dog0 extends Animal0 {\n  public constructor() -> Dog0 { super(); }\n  public override function say() -> string { return \"woof\"; }\n}\n",
+              "class Pup0 extends Dog0 {\n  public constructor() -> Pup0 { super(); }\n  public function wag() -> string { return \"wag\"; }\n}\n",
+              "class Cage0<T extends Animal0> {\n  public T occupant;\n  public constructor(T a) -> Cage0<T> { this.occupant = a; }\n"
+              "  public function speak() -> string { return this.occupant.say(); }\n}\n",
+              "class Keeper0 {\n  public Cage0<%s> cage;\n  public constructor() -> Keeper0 { this.cage = new Cage0<%s>(new %s()); }\n"
+              "  public function swap(Cage0<%s> other) -> Cage0<%s> { Cage0<%s> old = this.cage; this.cage = other; return old; }\n"
+              "  public function visit() -> string { return this.cage.speak(); }\n}\n" % ((arg,) * 6),
+              "function main() -> void {\n  Keeper0 k = new Keeper0();\n  echo(k.visit());\n  Cage0<%s> c = k.swap(new Cage0<%s>(new %s()));\n  echo(c.speak());\n  echo(k.visit());\n}\n"
+              % (arg, arg, arg)]
+    out.append(chunks)
+    return out
+
+
 def run(chk):
     quick = chk.tier == "quick"
     chk.proofs()
@@ -81,7 +119,21 @@ def run(chk):
             var_src.append("\n".join(parts[j] for j in p))
             meta.append(p)
             opts.append("")
+    # declaration graphs: static initialisers across classes, bounded generics in member signatures
+    graph_idx = []
+    for i in range(n // 6):
+        for parts in decl_graphs(rng):
+            for p in perms(rng, len(parts), 4 if quick else 8):
+                graph_idx.append(len(base_src))
+                base_src.append("\n".join(parts))
+                var_src.append("\n".join(parts[j] for j in p))
+                meta.append(p)
+                opts.append("")
     ra = lc.run_impl(base_src, opts=opts)
+    graph_ok = sum(1 for j in graph_idx if ra[j].get("status") == "ok")
+    if graph_idx and graph_ok * 10 < len(graph_idx) * 7:
+        raise RuntimeError("declaration-graph programs are mostly not accepted in their base order (%d/%d): the generator is out of step with the language: %s"
+                           % (graph_ok, len(graph_idx), (ra[graph_idx[0]].get("msg") or "")[:200]))
     rb = lc.run_impl(var_src, opts=opts)
     ndiff = 0
     nontriv = set()
@@ -101,12 +153,14 @@ def run(chk):
         elif a.get("status") == "ok" and len((a.get("stdout") or "").splitlines()) >= 3:
             nontriv.add(sb)
     chk.cov.update({"programs": len(progs), "verdicts": counts, "permutations_run": len(base_src), "permutations_that_changed_behaviour": ndiff,
-                    "accepted_base_programs": accepted, "rejected_base_programs": rejected,
+                    "declaration_graph_runs": len(graph_idx), "declaration_graph_runs_accepted": graph_ok, "accepted_base_programs": accepted, "rejected_base_programs": rejected,
                     "distinct_nontrivial_permuted_programs": len(nontriv),
                     "disagreements_checked": ndiff + sum(v for k, v in counts.items() if k not in ("agree", "rejected") and not k.startswith("skip")),
                     "rule": "class programs with 3-5 classes in chains up to depth 4 (plus helper functions and main) and function programs with forward calls, "
                             "argument-taking functions declared after their first use; each run in its generated order, reversed (derived classes before their bases, "
-                            "callees after callers), rotated and randomly permuted; acceptance, diagnostic category and output compared. Non-trivial = permuted "
+                            "callees after callers), rotated and randomly permuted; generic templates next to ordinary classes; classes whose static initialisers read "
+                            "other classes' statics (random DAGs and cycles, through fields, static methods and functions); bounded generic classes used in member "
+                            "signatures; acceptance, diagnostic category and output compared. Non-trivial = permuted "
                             "program printing at least 3 lines."})
     if base_src:
         chk.sample({"permutation": meta[0], "original": base_src[0], "permuted": var_src[0]})
